@@ -265,7 +265,38 @@ def entry_point_check(ctx):
         if why:
             bad += 1
             ctx.fail({"site": "main.dx_to_cube", "condition": why.split()[0]}, f"dx_to_cube output wrong: {why}", {"dx": case["lines"], "n": n})
+        # the console entry point in a FRESH process, with every value of its one option (--log-level): the
+        # option configures logging only, so the cube must be the same bytes and satisfy the same oracle
+        levels = [None, "DEBUG", "INFO", "WARNING", "ERROR", "CRITICAL"]
+        if not ctx.thorough:
+            levels = [None, "DEBUG", ctx.rng.choice(levels[2:])] if n in (5, 12) else [ctx.rng.choice(levels)]
+        for lv in levels:
+            o2 = entry_process(d, lv)
+            ctx.evaluated(("entry-process", n, lv), True)
+            ctx.count(f"entry-process:log-level={lv}")
+            why2 = oracle(case, o2)
+            if why2 or (out.startswith("OK:") and o2 != out):
+                bad += 1
+                why2 = why2 or "differs-from-the-default-run cube bytes differ from the run without the option"
+                ctx.fail({"site": "main.dx_to_cube", "condition": why2.split()[0], "option": "log-level"}, f"dx2cube --log-level {lv} (fresh process) output wrong: {why2}", {"entry_case": {k: case[k] for k in ("lines", "mal", "vals", "counts", "org", "dmat", "n")}, "pqr": pqr, "atoms": [list(a) for a in atoms], "log_level": lv})
     return bad
+
+
+def entry_process(d, level):
+    """dx2cube as a console script would run it: fresh interpreter, argv, working directory = scratch"""
+    import subprocess
+    import sys
+
+    cube = d / "p.cube"
+    if cube.exists():
+        cube.unlink()
+    argv = ["dx2cube"] + ([f"--log-level={level}"] if level else []) + ["a.dx", "a.pqr", "p.cube"]
+    code = f"import sys; sys.path.insert(0, {str(core.REPO)!r}); sys.argv = {argv!r}; import pdb2pqr.main as m; m.dx_to_cube()"
+    p = subprocess.run([sys.executable, "-c", code], cwd=str(d), capture_output=True, text=True, timeout=300, env={**__import__("os").environ, "PYTHONPATH": str(core.REPO), "PYTHONHASHSEED": "0"})
+    if p.returncode != 0 or not cube.exists():
+        last = (p.stderr.strip().splitlines() or ["?"])[-1]
+        return f"EXC-{last.split(':')[0][:40]}"
+    return "OK:" + cube.read_text()
 
 
 def run(ctx):
@@ -318,6 +349,18 @@ def run(ctx):
 
 def replay(ctx, data):
     case = data["case"]
+    if "entry_case" in case:  # console entry point in a fresh process
+        d = ctx.scratch_dir()
+        c = dict(case["entry_case"])
+        c["atoms"] = [tuple(a) for a in case["atoms"]]
+        (d / "a.dx").write_text("".join(l + "\n" for l in c["lines"]))
+        (d / "a.pqr").write_text(case["pqr"])
+        base = entry_process(d, None)
+        out = entry_process(d, case["log_level"])
+        why = oracle(c, out) or oracle(c, base) or ("differs from the run without the option" if out != base else None)
+        print("replay: dx2cube --log-level", case["log_level"], "->", "FAILS: " + why if why else "passes")
+        ctx.cleanup()
+        return 1 if why else 0
     out, _ = impl_run(case)
     why = oracle(case, out) if "counts" in case else None
     print("replay:", "FAILS: " + why if why else "passes", "| output head:", out[:200].replace("\n", "\\n"))
